@@ -11,7 +11,7 @@ pub enum RangeErr {
     NaN,
 }
 
-pub trait Hist: Clone + Sized + Send + Sync {
+pub trait Hist: Clone + Sized + std::fmt::Debug {
     const LEN: usize;
     const IMPL: &'static str;
     fn from_ranges(v: &[f64]) -> Result<Self, RangeErr>;
